@@ -144,6 +144,10 @@ bool linepart::array::apply(const transform &tr, int dim, span<const double> src
 			if (pt.usr && old._cut > pt._cut) {
 				pt._cut = old._cut;
 			}
+			// minimize trailing line when new part ends on last drawn point of old part
+			if (pt.usr && pt.usr == old.usr && old._trim > pt._trim) {
+				pt._trim = old._trim;
+			}
 			// partial segment
 			if (pt.raw < old.raw) {
 				old.raw -= pt.raw;
@@ -154,10 +158,6 @@ bool linepart::array::apply(const transform &tr, int dim, span<const double> src
 				// smaller old segment
 				if (old.raw < pt.raw) {
 					pt.raw = old.raw;
-				}
-				// minimize trailing line
-				if (pt.usr && old._trim > pt._trim) {
-					pt._trim = old._trim;
 				}
 				// continue in next part
 				if (++pos < oldlen) {
